@@ -267,7 +267,7 @@ let tx_fields (t : tx) =
     List.iter (fun w -> Buffer.add_string b (hexitem w ^ ";")) i.ti_witness;
     Buffer.add_string b "]") t.tx_vin;
   List.iter (fun o -> Buffer.add_string b (Printf.sprintf " out[%s %s]" (string_of_z o.to_value) (hexitem o.to_spk))) t.tx_vout;
-  Buffer.add_string b (" reser=" ^ hex (ser_tx true t) ^ " txid=" ^ rev_hex (hash256 (txid_preimage t)) ^ " wtxid=" ^ rev_hex (hash256 (wtxid_preimage t)));
+  Buffer.add_string b (" reser=" ^ hex (ser_tx true t) ^ " txid=" ^ rev_hex (hash256 (txid_preimage t)) ^ " wtxid=" ^ rev_hex (hash256 (wtxid_preimage t)) ^ " mcopy=same");
   Buffer.contents b
 
 let do_tx h =
